@@ -13,7 +13,7 @@ echo "== existing suite WITH change"
 cargo test --workspace --no-fail-fast --offline 2>&1 | grep -E "^test result|FAILED|failed" > $out/suite_with.txt
 echo "ok-lines: $(grep -c 'test result: ok' $out/suite_with.txt)  failed-lines: $(grep -vc 'test result: ok' $out/suite_with.txt)"
 echo "== demo WITHOUT change (expect pass)"
-git stash -q -- oxmpl/src oxmpl-py/src; build
+git apply -R $out/patch.diff; build  # (not git stash: the stash is shared between worktrees)
 PYTHONPATH=$wt/target/pyext_confirm python3 oxmpl-py/tests/seeded_demo.py > $out/demo_without_full.txt 2>&1; echo "exit=$?" > $out/demo_without.txt; tail -2 $out/demo_without_full.txt >> $out/demo_without.txt; cat $out/demo_without.txt
-git stash pop -q
+git apply $out/patch.diff
 rm -f $out/demo_with_full.txt $out/demo_without_full.txt
